@@ -183,7 +183,9 @@ Fixpoint assoc {B : Type} (name : string) (l : list (string * B)) : option B :=
   | (x, b) :: t => if String.eqb x name then Some b else assoc name t
   end.
 
-Definition name_at (l : list string) (i : N) : option string := nth_error l (N.to_nat i).
+(* i-th name of a table (the bound test keeps N.to_nat small: i is any u32 read from the wire) *)
+Definition name_at (l : list string) (i : N) : option string :=
+  if N.of_nat (length l) <=? i then None else nth_error l (N.to_nat i).
 
 (* ------------------------------------------------------------------ *)
 (* interpreter::Value and runtime::ffi_serde::FfiValue                  *)
@@ -426,9 +428,6 @@ Definition val_kind_of_index (i : N) : option val_kind :=
   | Some nm => val_kind_of_name nm
   | None => None
   end.
-
-Definition opt_app (a : option (list N)) (b : list N) : option (list N) :=
-  match a with Some x => Some (x ++ b) | None => None end.
 
 (* Vec<T>::serialize with a fallible element serializer: the first failure aborts *)
 Definition flat_map_opt {A : Type} (f : A -> option (list N)) : list A -> option (list N) :=
@@ -692,6 +691,20 @@ Fixpoint has_errorv {S : Type} (v : value S) : bool :=
   | VTaggedUnion _ x => has_errorv x
   | _ => false
   end.
+
+(* the value with every ErrorV on the traversed part replaced by Unit (what finding F10 turns a value into) *)
+Fixpoint squash_errorv (v : value str) : value str :=
+  match v with
+  | VErrorV _ => VUnit
+  | VArray l => VArray (map squash_errorv l)
+  | VTuple l => VTuple (map squash_errorv l)
+  | VRecord l => VRecord (map (fun kv => (fst kv, squash_errorv (snd kv))) l)
+  | VTaggedUnion tag x => VTaggedUnion tag (squash_errorv x)
+  | _ => v
+  end.
+
+(* representable across the boundary: only the listed variants, within the bounds every Rust value satisfies *)
+Definition representable (v : value str) : bool := crossable v && value_ok str_ok v.
 
 Definition rtf_ok (f : rtf) : bool := (rtf_key f <? pow64) && key_ok (rtf_ty f).
 Definition variant_ok (p : N * option key) : bool :=
